@@ -442,6 +442,12 @@ def gen_world(seed, classes=ALL_CLASSES, want_constraints=0.3, node_p=0.25, tag=
             args["k"] = max(1, nroutes - 1)       # fewer paths allowed than the given weights could fill
     if base in ("kMinPathError", "kLeastAbsErrors") and rng.random() < 0.1 and g.get("weights") and not inner:
         args["solution_weights_superset"] = list(g["weights"]) + [rng.randint(1, 5)]
+    ri = random.Random(H(seed, tag, "isolated"))
+    if not node_mode and ri.random() < 0.06:
+        # an isolated node: a source and a sink at once; the one-node route through it is a source-to-sink route
+        graph = dict(graph)
+        graph["nodes"] = list(graph["nodes"]) + [[x for x in ("iso", "z.0", "q7") if x not in graph["nodes"]][0]]
+        graph["isolated"] = graph["nodes"][-1]
     if cname == "NumPathsOptimization":
         args["model_type"] = inner
         args["min_num_paths"] = 1
